@@ -17,8 +17,9 @@ Hi(n) == (3 * Nominal(n)) \div 2 + 2
 
 Outcomes == {"ok", "err", "panic", "requeue", "requeueErr", "skip"}
 (* failure count after an outcome *)
-NextCount(n, o) == CASE o \in {"ok", "skip", "requeue"} -> 0
+NextCount(n, o) == CASE o \in {"ok", "skip", "requeue", "startlong"} -> 0
                      [] o \in {"err", "panic"} -> n + 1
+                     [] o = "reseterr" -> 1          \* the back-off was reset right before this failure
                      [] OTHER -> n
 
 CONSTANTS MaxLen, Delays
